@@ -7,8 +7,28 @@ table (vf/worlds/bulkworld.py); afterwards every in-session object is compared
 with the database.  No expected SQL, no re-implementation of SQL semantics: the
 database's own answer is the reference.
 
-Mutations caught (each in a private copy, `VF_REPO=/tmp/wt-bulk ./check C43`):
-  see the end of this docstring (filled in from the actual runs).
+Failures are named by root cause: for a failing case the smallest sub-tree on
+which orm/evaluator.py and the database disagree (both evaluated on the
+pristine row) gives a case-independent signature "evaluator <op>: python gives
+<class> where SQL gives <class>; minimal: <canonical witness>"; failures that
+are not an evaluator disagreement are named by symptom + minimal case, and
+`finish()` keeps, per root-cause kind, the failure that comes first in the
+global enumeration order (independent of sharding / jobs / seed).
+
+Mutations caught (each in a private copy, `VF_REPO=/tmp/wt-bulk ./check C43`;
+each yields VIOLATION lines with a signature not produced by the unchanged tree):
+  m1 orm/evaluator.py visit_or_clauselist_op: drop `has_null = has_null or value is None`
+     -> "evaluator or: python gives FALSE where SQL gives NULL; minimal: or(NULL, NULL)"
+  m2 orm/evaluator.py _straight_evaluate: NULL check only on the left operand
+     -> "evaluator mul/sub/mod/div: python gives TypeError where SQL gives NULL ..." (+ comparison variants)
+  m3 orm/bulk_persistence.py orm_pre_session_exec: autoflush before the statement dropped
+     -> "stale-attr [pending]: ...", "unmatched-changed [pending]: ..."
+  m5 orm/evaluator.py visit_is_binary_op routed through _straight_evaluate (NULL-propagating)
+     -> "evaluator isnull: python gives NULL where SQL gives TRUE; minimal: isnull(NULL)"
+  (m4, dropping the "formerly modified attributes get expired" step of
+  _apply_update_set_values_to_objects, is equivalent under the property: the un-flushed
+  application change simply stays pending, which the statement does not forbid.)
+  All eight proposed patches applied together (proposed_fixes/c43_*.diff) -> 0 violations.
 """
 from __future__ import annotations
 
@@ -22,10 +42,10 @@ META = dict(
     "differential oracle: in-session objects vs database rows after the statement",
     design_ref="DESIGN.md §5 C43",
     level_text="Every criterion tree within the bound (all leaf predicates of the evaluator's operator set incl. IN/NOT IN "
-    "lists with NULL and empty lists, startswith/endswith needles with LIKE wildcards, arithmetic with negative operands "
-    "and zero divisors; all AND/OR/NOT combinations over an 8-atom base that realises every TRUE/FALSE/NULL combination) "
+    "lists with NULL and empty lists, startswith/endswith needles with LIKE wildcards with and without autoescape, explicit "
+    "bindparam() values passed to execute(), arithmetic with negative operands and zero divisors; all AND/OR/NOT combinations over an 8-atom base that realises every TRUE/FALSE/NULL combination) "
     "is executed as ORM-enabled UPDATE and DELETE with synchronize_session evaluate/auto/fetch/False against a session "
-    "holding all 144 rows of the full value cross product; every SET clause of a 17-element family and five session "
+    "holding all 144 rows of the full value cross product; every SET clause of a 19-element family and five session "
     "variants (partially/fully expired objects, pending changes with autoflush on/off, partially loaded session), "
     "RETURNING, the legacy Query.update()/delete() route and bulk UPDATE by primary key are crossed with a criterion "
     "core. After each statement each object's loaded attributes must equal its row, objects of deleted rows must have "
@@ -45,8 +65,8 @@ META = dict(
     ],
     bounds=dict(
         quick="criteria: all leaf predicates with <=1 arithmetic operator, NOT of each, AND/OR of each with an 8-atom core, all "
-        "boolean trees with 2 connectives over the core (7.8k trees) x UPDATE/DELETE x evaluate/auto (+fetch, False on the "
-        "shallow levels); 17 SET clauses x 6 criteria x 3 strategies x 2 variants; 7 variant/route families x 15 criteria",
+        "boolean trees with 2 connectives over the core (8.1k trees) x UPDATE/DELETE x evaluate/auto (+fetch, False on the "
+        "shallow levels); 19 SET clauses x 6 criteria x 3 strategies x 2 variants; 7 variant/route families x 15 criteria",
         thorough="+ predicates with 2 arithmetic operators, double negation, connectives over arithmetic predicates, all boolean "
         "trees with 3 connectives over 6 core atoms (76k trees); variant families over all leaf predicates",
     ),
